@@ -264,6 +264,9 @@ def main():
     try:
         mod = find_module(pid)
         from . import core
+        import basic_robotics
+        if not os.path.realpath(basic_robotics.__file__).startswith(os.path.realpath(REPO) + os.sep):
+            raise core.HarnessError("basic_robotics imported from %s, not from %s" % (basic_robotics.__file__, REPO))
 
         if args.replay:
             name, failed, msg = replay_file(mod, args.replay)
